@@ -374,3 +374,12 @@ def yields_err(fn_body, if_node, block):
     if t is not None and show(t, maxdepth=4).startswith("Err(") and tail_expr(fn_body) is if_node:
         return True
     return False
+
+
+def conjuncts(c):
+    """the operands of a (nested, parenthesised) `&&`"""
+    while c.get("k") == "paren":
+        c = c["e"]
+    if c.get("k") == "bin" and c["op"] == "&&":
+        return conjuncts(c["lhs"]) + conjuncts(c["rhs"])
+    return [c]
